@@ -24,6 +24,7 @@ from pycel.excelformula import ExcelFormula
 from pycel.excelutil import (
     AddressCell,
     AddressRange,
+    EMPTY,
     ERROR_CODES,
     flatten,
     is_address,
@@ -944,8 +945,13 @@ class ExcelCompiler:
                 else:
                     self.log.info(
                         f"Cell {cell.address} evaluated to '{value}' ({type(value).__name__})")
-                cell.value = (value[0][0] if list_like(value[0]) else value[0]
-                              ) if list_like(value) else value
+                if list_like(value):
+                    # the cell shows the first element, an empty one as 0
+                    # (like a reference to an empty cell does)
+                    value = value[0][0] if list_like(value[0]) else value[0]
+                    if value is None or value == EMPTY:
+                        value = 0
+                cell.value = value
 
         return cell.value
 
